@@ -18,10 +18,7 @@ RULE = (
 )
 TRUSTED = ["models: lean/SRVerif/Model/{Rec,LabelDP,Solvers}.lean (table minima through the op table_min)"]
 ASSUMPTIONS = ["cost vectors inside spe + 2*sloss <= dup + 2*floss"]
-OPEN = [
-    "C10_unordered_le_ordered_statement (Properties/C10All.lean): unordered optimum <= ordered optimum on every input - "
-    "stated, explored by the check; proved with equality on single-family inputs (C10_unordered_eq_ordered_single)",
-]
+OPEN = []  # C10_guarded : all four inequalities + single-family clause (C10UnOrd, C10All, C10Single*)
 
 ALGOS = ["lca", "thl", "base_spfs", "ext_spfs", "base_uspfs", "superdtl"]
 
